@@ -132,6 +132,43 @@ def judge_accessors(objs, phase, acc, sig, viol, prog):
                 viol.append({"key": key, "what": what, "program": prog, "phase": phase, "source": src})
 
 
+def judge_function_tables(phase, acc, sig, viol, prog):
+    """The per-function tables of multipliers are accessors too: with no solution of the latest solve they must raise the
+    'must be solved' ValueError, not return numbers (of an earlier solve)."""
+    import pandas as pd
+    from PEPit.function import Function
+    from PEPit.constraint import Constraint
+    for fn in list(Function.list_of_functions):
+        if not fn.get_is_leaf():
+            continue
+        holds = 0
+        for tb in getattr(fn, "tables_of_constraints", {}).values():
+            if isinstance(tb, pd.DataFrame):
+                holds += sum(1 for el in tb.to_numpy().ravel() if isinstance(el, Constraint))
+        if not holds:
+            continue
+        try:
+            r = fn.get_class_constraints_duals()
+            outcome = ("returned", r)
+        except ValueError:
+            outcome = ("ValueError", None)
+        except Exception as e:
+            outcome = (type(e).__name__, e)
+        acc["accessor_calls_judged"] = acc.get("accessor_calls_judged", 0) + 1
+        acc["dual_table_calls_judged"] = acc.get("dual_table_calls_judged", 0) + 1
+        sig.add("%s|function|get_class_constraints_duals" % phase)
+        if outcome[0] == "ValueError":
+            continue
+        if outcome[0] == "returned":
+            key = "number_without_solution:function.get_class_constraints_duals:%s" % phase
+            what = "%s.get_class_constraints_duals() returned tables of numbers for %d class constraints %s" % (type(fn).__name__, holds, phase)
+        else:
+            key = "wrong_exception_type:function.get_class_constraints_duals:%s" % outcome[0]
+            what = "%s.get_class_constraints_duals() raised %s instead of ValueError [%s]" % (type(fn).__name__, outcome[0], phase)
+        if len(viol) < 12:
+            viol.append({"key": key, "what": what, "program": prog, "phase": phase, "source": "function"})
+
+
 def nofinite_models(rng):
     """Purpose-built models with no finite optimum. Returns list of (name, ops, expected_kind)."""
     from pv import gen
@@ -235,6 +272,7 @@ def run_shard(spec):
                                  "program": prog, "config": cfg})
                     continue
                 judge_accessors(reachable_objects(case.machine), "after_solve_returned_None", counters, sig, viol, prog)
+                judge_function_tables("after_solve_returned_None", counters, sig, viol, prog)
     # (b') a model that WAS solved and then has no finite optimum any more: the re-solve returns None and every
     #      object of the model (incl. constraints / LMIs attached to functions) behaves as never solved
     for tag, prog in items:
@@ -264,6 +302,7 @@ def run_shard(spec):
         for k_, o_, t_ in bd.records[n0]["sent"]:
             objs.append(("sent_at_failed_resolve", o_))
         judge_accessors(objs, "after_failed_resolve", counters, sig, viol, prog)
+        judge_function_tables("after_failed_resolve", counters, sig, viol, prog)
     # (c) invalid options on bounded models
     bad_opts = [{"return_primal_or_dual": "both"}, {"return_primal_or_dual": "Dual"}, {"return_primal_or_dual": None},
                 {"return_primal_or_dual": "both", "dimension_reduction_heuristic": "trace"},
@@ -274,7 +313,8 @@ def run_shard(spec):
                 {"dimension_reduction_heuristic": "foo"}, {"dimension_reduction_heuristic": "logdet"},
                 {"dimension_reduction_heuristic": "logdetx"}, {"dimension_reduction_heuristic": "trace1"},
                 {"dimension_reduction_heuristic": "Trace"}, {"dimension_reduction_heuristic": "logdet1.5"},
-                {"dimension_reduction_heuristic": "log_det2"}]
+                {"dimension_reduction_heuristic": "log_det2"},
+                {"solver": "CLARABELL"}, {"solver": "NOT_A_SOLVER"}, {"solver": "clarabel "}, {"solver": 3}]
     rng = driver.case_rng(spec["seed"], spec["name"] + "/opt", 0)
     for j, bo in enumerate(bad_opts):
         if (j + spec.get("shard", 0)) % 2 and "replay" not in spec and spec.get("n", 10) < 100:
